@@ -37,7 +37,7 @@ class Instance:
         rec = {"fn": body.path if hasattr(body, "path") else str(body), "what": what}
         if loc is not None and hasattr(body, "span_at"):
             rec["at"] = body.span_at(loc)
-        if detail:
+        if detail is not None:
             rec["detail"] = detail
         self.sites.append(rec)
         return rec
